@@ -18,7 +18,9 @@
           BYMONTH / BYMONTHDAY limiting one another).  What `MlySup`, `YlySup` still assume is what the parser guarantees
           (sizes of the BYMONTHDAY / BYMONTH sets, BYDAY ordinals from -53 on) and, for YEARLY, that BYDAY next to BYWEEKNO
           alone carries no ordinals — a combination RFC 5545 forbids, where the code drops the numbered entries and the
-          specification reads them as plain weekdays (`yearly_weekno_numbered_byday`).  MONTHLY completeness keeps
+          specification reads them as plain weekdays (`yearly_weekno_numbered_byday`).  BYWEEKNO takes the weeks of the
+          neighbouring ISO years too, for their days within the calendar year (finding D192, `yearly_weekno_year_ends`).
+          MONTHLY completeness keeps
           `MlyFirstPos` (an occurrence within the first 336 months; see below).  SHIFT and BYEASTER are echse's own
           extensions and are C17's matter (`r.shift = 0`, `r.easter = []` here).
   The proofs are in Echse/Lemmas/RrSubRfc*, RrSlyRfc*, RrMnlyRfc*, RrHlyRfc*, RrRfcBase*, RrRfcPos*, RrDlyRfc*, RrDlyPos*,
@@ -223,6 +225,30 @@ theorem yearly_weekno_numbered_byday :
     Or.inl rfl, Or.inl rfl, ?_, Or.inr ⟨by unfold hourExp; decide, by unfold minExp; decide, by unfold secExp; decide⟩⟩
   rw [if_pos (by decide), if_neg (by decide), if_pos (by decide)]
   exact ⟨9, by decide, by decide +kernel⟩
+
+/-- finding D192, BYWEEKNO at the year's ends: the days of a first week that lie in the December before, and those of a
+last week in the January after, belong to the calendar year they lie in.  FREQ=YEARLY;BYWEEKNO=1;BYDAY=MO from
+2024-01-01T09:00:00 has 2024-12-30 (the Monday of week 1 of ISO year 2025) in calendar year 2024, in the code and in the
+specification; FREQ=YEARLY;BYWEEKNO=-1;BYDAY=FR,SA,SU has 2021-01-01 .. 2021-01-03 (week 53 of ISO year 2020) in
+calendar year 2021 -/
+theorem yearly_weekno_year_ends :
+    fillYly { freq := 1, wk := [1], dow := [1] }
+      { y := 2024, m := 1, d := 1, H := 9, M := 0, S := 0, ms := 0 } 3 =
+      some [{ y := 2024, m := 1, d := 1, H := 9, M := 0, S := 0, ms := 0 },
+            { y := 2024, m := 12, d := 30, H := 9, M := 0, S := 0, ms := 0 },
+            { y := 2025, m := 12, d := 29, H := 9, M := 0, S := 0, ms := 0 }] ∧
+    weeknoOk { freq := 1, wk := [1], dow := [1] } { y := 2024, m := 12, d := 30, H := 9, M := 0, S := 0, ms := 0 } ∧
+    fillYlyYwd [] 2024 [1] [1] = [packCand 1 1, packCand 12 30] ∧
+    fillYlyYwd [] 2021 [-1] [5, 6, 7] = [packCand 1 1, packCand 1 2, packCand 1 3, packCand 12 31] ∧
+    fillYly { freq := 1, wk := [-1], dow := [5, 6, 7] }
+      { y := 2020, m := 12, d := 25, H := 9, M := 0, S := 0, ms := 0 } 4 =
+      some [{ y := 2021, m := 1, d := 1, H := 9, M := 0, S := 0, ms := 0 },
+            { y := 2021, m := 1, d := 2, H := 9, M := 0, S := 0, ms := 0 },
+            { y := 2021, m := 1, d := 3, H := 9, M := 0, S := 0, ms := 0 },
+            { y := 2021, m := 12, d := 31, H := 9, M := 0, S := 0, ms := 0 }] ∧
+    weeknoOk { freq := 1, wk := [-1], dow := [5, 6, 7] } { y := 2021, m := 1, d := 2, H := 9, M := 0, S := 0, ms := 0 } := by
+  refine ⟨by decide +kernel, ⟨1, by decide, 2025, by decide, by decide +kernel⟩, by decide +kernel, by decide +kernel,
+    by decide +kernel, ⟨-1, by decide, 2020, by decide, by decide +kernel⟩⟩
 
 /-! the hypotheses are satisfiable: ordinary rules of each kind -/
 example : MlySup { freq := 2, dom := [15, -1], dow := [] } := ⟨by decide⟩
